@@ -952,5 +952,44 @@ mod verif_deflate_core {
         kani::cover!(ntok == N, "COV:fast.all_literals");
     }
 
+    // ------------------------------------------------------------------
+    // K-def-reset : CompressorOxide::reset against a fresh compressor with the same settings, symbolic pre-state
+    // ------------------------------------------------------------------
+    #[kani::proof]
+    #[kani::stub(<[u16]>::fill, model_fill)]
+    fn k_compressor_reset() {
+        let mut d = any_compressor!();
+        let (flags, wbm, greedy, probes) = (d.params.flags, d.params.window_bits_max, d.params.greedy_parsing, d.dict.max_probes);
+        // arbitrary history
+        d.params.block_index = kani::any(); d.params.saved_match_dist = kani::any(); d.params.saved_match_len = kani::any(); d.params.saved_lit = kani::any();
+        d.params.flush = any_flush(); d.params.flush_ofs = kani::any(); d.params.flush_remaining = kani::any(); d.params.finished = kani::any();
+        d.params.adler32 = kani::any(); d.params.src_pos = kani::any(); d.params.out_buf_ofs = kani::any(); d.params.prev_return_status = any_status();
+        d.params.saved_bit_buffer = kani::any(); d.params.saved_bits_in = kani::any();
+        d.dict.code_buf_dict_pos = kani::any(); d.dict.lookahead_size = kani::any(); d.dict.lookahead_pos = kani::any(); d.dict.size = kani::any();
+        d.lz.code_position = kani::any(); d.lz.flag_position = kani::any(); d.lz.total_bytes = kani::any(); d.lz.num_flags_left = kani::any();
+        let (i_dict, i_lz, i_lb, i_h): (usize, usize, usize, usize) = (kani::any(), kani::any(), kani::any(), kani::any());
+        kani::assume(i_dict < LZ_DICT_FULL_SIZE && i_lz < LZ_CODE_BUF_SIZE && i_lb < OUT_BUF_SIZE && i_h < MAX_HUFF_SYMBOLS);
+        d.dict.b.dict[0] = kani::any(); d.lz.codes[i_lz] = kani::any(); d.params.local_buf.b[i_lb] = kani::any();
+        d.huff.count[0][i_h] = kani::any(); d.huff.codes[1][i_h] = kani::any(); d.huff.code_sizes[2][i_h] = kani::any();
+        d.dict.b.hash[0] = kani::any(); d.dict.b.next[0] = kani::any();
+
+        d.reset();
+
+        assert!(d.params.flags == flags && d.params.window_bits_max == wbm && d.params.greedy_parsing == greedy && d.dict.max_probes[0] == probes[0] && d.dict.max_probes[1] == probes[1],
+            "OBL:reset.compressor_settings_preserved [C18]");
+        assert!(d.params.block_index == 0 && d.params.saved_match_dist == 0 && d.params.saved_match_len == 0 && d.params.saved_lit == 0, "OBL:reset.compressor_lazy_match_and_block_index_cleared [C18 C02]");
+        assert!(d.params.flush == TDEFLFlush::None && d.params.flush_ofs == 0 && d.params.flush_remaining == 0 && !d.params.finished, "OBL:reset.compressor_pending_output_state_cleared [C18 C14]");
+        assert!(d.params.adler32 == 1 && d.params.src_pos == 0 && d.params.out_buf_ofs == 0 && d.params.prev_return_status == TDEFLStatus::Okay, "OBL:reset.compressor_checksum_and_status_cleared [C18 C16]");
+        assert!(d.params.saved_bit_buffer == 0 && d.params.saved_bits_in == 0, "OBL:reset.compressor_partial_byte_cleared [C18]");
+        assert!(d.dict.code_buf_dict_pos == 0 && d.dict.lookahead_size == 0 && d.dict.lookahead_pos == 0 && d.dict.size == 0, "OBL:reset.compressor_window_cursors_cleared [C18]");
+        assert!(d.lz.code_position == 1 && d.lz.flag_position == 0 && d.lz.total_bytes == 0 && d.lz.num_flags_left == 8, "OBL:reset.compressor_token_buffer_cursors_fresh [C18]");
+        assert!(d.lz.codes[i_lz] == 0 && d.params.local_buf.b[i_lb] == 0, "OBL:reset.compressor_buffers_zeroed [C18]");
+        assert!(d.huff.count[0][i_h] == 0 && d.huff.codes[1][i_h] == 0 && d.huff.code_sizes[2][i_h] == 0, "OBL:reset.compressor_huffman_tables_zeroed [C18]");
+        // the fill model stands for all three whole-array fills (window u8, next u16, hash u16): each must be a fill of
+        // the whole array with 0 (observed at index 0 + recorded lengths; the std contract extends it to every element)
+        assert!(FILL_CALLS.load(core::sync::atomic::Ordering::Relaxed) == 3 && FILL_LEN_SUM.load(core::sync::atomic::Ordering::Relaxed) == LZ_DICT_FULL_SIZE + 2 * LZ_DICT_SIZE
+            && d.dict.b.dict[0] == 0 && d.dict.b.hash[0] == 0 && d.dict.b.next[0] == 0, "OBL:reset.compressor_window_and_hash_chains_zeroed [C18]");
+    }
+
     //@PLAYBACK@
 }
